@@ -269,6 +269,9 @@ impl<const M0: u64, const M1: u64, const M2: u64, const M3: u64> ModInt256<M0, M
     // clt MUST be equal to 0 or 0xFFFFFFFF.
     #[inline(always)]
     pub fn set_cond(&mut self, a: &Self, ctl: u32) {
+        // Barrier: prevent the compiler from turning the masking below
+        // into a conditional jump on the (possibly secret) control word.
+        let ctl = core::hint::black_box(ctl);
         let cw = ((ctl as i32) as i64) as u64;
         self.0[0] ^= cw & (self.0[0] ^ a.0[0]);
         self.0[1] ^= cw & (self.0[1] ^ a.0[1]);
@@ -290,6 +293,9 @@ impl<const M0: u64, const M1: u64, const M2: u64, const M3: u64> ModInt256<M0, M
     // ctl MUST be either 0x00000000 or 0xFFFFFFFF.
     #[inline(always)]
     pub fn cswap(a: &mut Self, b: &mut Self, ctl: u32) {
+        // Barrier: prevent the compiler from turning the masking below
+        // into a conditional jump on the (possibly secret) control word.
+        let ctl = core::hint::black_box(ctl);
         let cw = ((ctl as i32) as i64) as u64;
         let t = cw & (a.0[0] ^ b.0[0]); a.0[0] ^= t; b.0[0] ^= t;
         let t = cw & (a.0[1] ^ b.0[1]); a.0[1] ^= t; b.0[1] ^= t;
@@ -1228,7 +1234,7 @@ impl<const M0: u64, const M1: u64, const M2: u64, const M3: u64> ModInt256<M0, M
         // invertible, then b != 1. We clear the result in the latter
         // case (by convention, we want to return 0 in that case).
         let w = b.0[1] | b.0[2] | b.0[3] | (xb ^ 1);
-        let w = !sgnw(w | w.wrapping_neg());
+        let w = core::hint::black_box(!sgnw(w | w.wrapping_neg()));
         self.0[0] &= w;
         self.0[1] &= w;
         self.0[2] &= w;
